@@ -55,10 +55,24 @@ fn check_elem<B: Backend>(r: &Recipe, ctx: &mut Ctx) -> Result<(), Failure> {
     Ok(())
 }
 
+/// every decoding entry point of the configuration that accepts `arr`, with the re-encoding of what it returned
+fn reencodings(is_ark: bool, arr: &[u8; 32]) -> Vec<(&'static str, [u8; 32])> {
+    if is_ark {
+        crate::props::c02::ark_entry_points(arr).into_iter().filter_map(|(n, r)| r.ok().map(|e| (n, e.vartime_compress().0))).collect()
+    } else {
+        crate::props::c02::min_entry_points(arr).into_iter().filter_map(|(n, r)| r.ok().map(|e| (n, e.vartime_compress().0))).collect()
+    }
+}
+
 fn check_bytes<B: Backend>(b: &Bytes32, ctx: &mut Ctx) -> Result<(), Failure> {
     let c = &*CURVE;
     let arr = b.arr();
     ctx.class(&format!("{}:bytes:{}", B::NAME, b.family));
+    // whichever entry point decodes the string (TryFrom, stream deserialisers, ...), re-encoding must reproduce it
+    for (name, enc) in reencodings(B::IS_ARK, &arr) {
+        ctx.sub_eval();
+        ensure!(ctx, enc == arr, format!("C01|{}:{name}|encode-of-decode-differs", B::NAME), "{name} accepted {} but re-encoding gives {}", hex::encode(arr), hex::encode(enc));
+    }
     match B::decode(&arr) {
         Err(_) => {
             ctx.class(&format!("{}:bytes:rejected", B::NAME));
